@@ -92,8 +92,15 @@ def recorder(base):
             r = super().element_decode(data, xsd_element, xsd_type, level)
             if snap is not None:
                 snap['out'] = L.canon(r)
+            # what `map_qname` answers in the namespace context of THIS call (the contexts of nested declarations
+            # are gone when the log is read)
+            try:
+                tabs = {'tag': self.map_qname(data.tag),
+                        'attrs': [[k, self.map_qname(k)] for k, _v in (data.attributes or [])]}
+            except Exception:
+                tabs = None
             LOG.append(('dec', data, xsd_element, xsd_type or xsd_element.type, level, r,
-                        self.get_effective_xmlns(data.xmlns, level, xsd_element), self, snap))
+                        self.get_effective_xmlns(data.xmlns, level, xsd_element), self, snap, tabs))
             return r
 
         def element_encode(self, obj, xsd_element, level=0):
@@ -147,7 +154,18 @@ def unmap_tables(conv, obj, xsd_element) -> dict:
     """what the real `unmap_qname` answers, in the namespace context of this call, for every string of the
     data that can be used as a name at this level (the mapper is a parameter of the model)"""
     tags, attrs = [], []
-    if type(conv).__name__ == 'XMLSchemaConverter' and isinstance(obj, MutableMapping):
+    special: dict = {}
+    kind = type(conv).__name__
+
+    def child(k, x):
+        try:
+            ext = conv.unmap_qname(k, xmlns=x)
+        except Exception:
+            return
+        if special.setdefault(k, ext) != ext:
+            special[k] = None               # one key, two meanings at one level
+        tags.append([ext, k])
+    if kind == 'XMLSchemaConverter' and isinstance(obj, MutableMapping):
         # the default convention un-maps a child key in the xmlns context of its value (base.py:477-482)
         for k, v in obj.items():
             if not isinstance(k, str):
@@ -157,16 +175,52 @@ def unmap_tables(conv, obj, xsd_element) -> dict:
                     x = conv.get_xmlns_from_data(v[0]) if isinstance(v[0], (MutableMapping, MutableSequence)) else None
                 else:
                     x = conv.get_xmlns_from_data(v)
-                tags.append([conv.unmap_qname(k, xmlns=x), k])
             except Exception:
-                pass
+                continue
+            child(k, x)
+    own = None
+    if kind == 'JsonMLConverter' and isinstance(obj, MutableSequence):
+        # JsonML un-maps the name of a child with the declarations that the child carries (jsonml.py:126-131)
+        own = obj[0] if len(obj) and isinstance(obj[0], str) else None
+        for e in list(obj)[1:]:
+            if isinstance(e, MutableSequence) and len(e) and isinstance(e[0], str):
+                try:
+                    x = conv.get_xmlns_from_data(e)
+                except Exception:
+                    continue
+                child(e[0], x)
+    conflict = any(v is None for v in special.values())
     for s in sorted(name_candidates(obj)):
         try:
-            tags.append([conv.unmap_qname(s), s])
+            g = conv.unmap_qname(s)
+            if s not in special or kind == 'XMLSchemaConverter':
+                tags.append([g, s])
+            elif s == own and g != special[s]:
+                conflict = True             # the element's own name and a child's name: same string, other meaning
             attrs.append([conv.unmap_qname(s, xsd_element.attributes), s])
         except Exception:
             pass
-    return {'tags': tags, 'attrs': attrs}
+    out = {'tags': tags, 'attrs': attrs}
+    if conflict:
+        out['conflict'] = True
+    # for the scoped model: the names that the call un-maps in its own context, and the children's names
+    # (un-mapped in the context extended with the child's declarations)
+    try:
+        if kind == 'JsonMLConverter' and isinstance(obj, MutableSequence):
+            out['own'] = [own] if own is not None else []
+            if len(obj) > 1 and isinstance(obj[1], MutableMapping):
+                out['akeys'] = [k for k in obj[1] if isinstance(k, str)]
+            out['kids'] = [[conv.unmap_qname(e[0], xmlns=conv.get_xmlns_from_data(e)), e[0],
+                            [list(x) for x in (conv.get_xmlns_from_data(e) or [])]]
+                           for e in list(obj)[1:]
+                           if isinstance(e, MutableSequence) and len(e) and isinstance(e[0], str)]
+        elif kind == 'DataElementConverter' and hasattr(obj, 'attrib'):
+            out['own'] = []
+            out['akeys'] = [k for k in obj.attrib if isinstance(k, str)]
+            out['kids'] = []
+    except Exception:
+        pass
+    return out
 
 
 def conv_classes() -> dict:
@@ -274,11 +328,15 @@ def decode_log_to_tree(log: list, table: SchemaTable, mapper: Mapper):
     for ent in log:
         if ent[0] != 'dec':
             continue
-        _, data, xe, xt, level, result, eff_xmlns, conv, snap = ent
+        _, data, xe, xt, level, result, eff_xmlns, conv, snap, tabs = ent
         ty = table.type_id(xe, xt)
-        mapper.add(mapper.tags, data.tag, conv.map_qname(data.tag))
-        for k, _v in (data.attributes or []):
-            mapper.add(mapper.attrs, k, conv.map_qname(k))
+        if tabs is None:
+            return None, None
+        own = Mapper()                      # the mapper as this call saw it
+        for m in (mapper, own):
+            m.add(m.tags, data.tag, tabs['tag'])
+            for k, mk in tabs['attrs']:
+                m.add(m.attrs, k, mk)
         content = data.content or []
         nkids = sum(1 for it in content if not isinstance(it[0], int))
         kids = stack[len(stack) - nkids:] if nkids else []
@@ -299,13 +357,16 @@ def decode_log_to_tree(log: list, table: SchemaTable, mapper: Mapper):
                 ki += 1
                 single = bool(it[2].is_single()) if it[2] is not None else False
                 mapper.add(mapper.tags, kid['tag'], it[0])
+                own.add(own.tags, kid['tag'], it[0])    # mapped in the child's context (groups.py:1008-1009)
                 items.append({'n': [kid['tag'], single, kid]})
                 items1.append({'n': [kid['tag'], single, snap['in'][ki - 1] if snap else L.canon(it[1])]})
         node = {'ty': ty, 'tag': data.tag, 'attrs': [[k, L.canon(v)] for k, v in (data.attributes or [])],
                 'xmlns': [list(p) for p in (eff_xmlns or [])], 'items': items}
         if data.text is not None:
             node['text'] = snap['text'] if snap else L.canon(data.text)
-        node['_one'] = {'items': items1, 'result': snap['out'] if snap else L.canon(result)}
+        node['_one'] = {'items': items1, 'result': snap['out'] if snap else L.canon(result),
+                        'mapper': own.json() if own.functional else None}
+        node['_tabs'] = tabs
         stack.append(node)
         levels.append(level)
     if len(stack) != 1:
@@ -424,18 +485,32 @@ def tostring(elem, u) -> str:
 
 
 class Unit:
-    """one built schema + one valid instance"""
+    """one built schema + one valid instance (`nested`: the instance is the validity-preserving re-serialisation
+    of `base_xml` with namespace (re)declarations on non-root elements, lib_c05.serialize_nested)"""
 
-    def __init__(self, sid: int, xsd: str, schema, xml: str, root: ET.Element, ast: dict):
+    def __init__(self, sid: int, xsd: str, schema, xml: str, root: ET.Element, ast: dict,
+                 base_xml: Optional[str] = None, nsstats: Optional[dict] = None):
         self.sid, self.xsd, self.schema, self.xml, self.root, self.ast = sid, xsd, schema, xml, root, ast
         self.contiguous = L.contiguous(root)
         self.mixed_text = L.has_mixed_text(root)
         self.nsmap = {}
+        self.base_xml = base_xml
+        self.nsstats = nsstats
         import re
-        m = re.match(r'<(\w+):', xml)
+        start = re.match(r'<[^>]*>', xml).group(0)          # the root start tag
+        m = re.match(r'<(\w+):', start)
         self.pfx = m.group(1) if m else None
-        m = re.search(r'xmlns(?::\w+)?="([^"]*)"', xml)
+        m = re.search(r'xmlns(?::\w+)?="([^"]*)"', start)
         self.ast_tns = m.group(1) if m else None
+        self.inner_xmlns = 'xmlns' in xml[len(start):]
+        self.keys_stable = L.keys_stable(xml) if self.inner_xmlns else True
+        self._base_data: dict = {}
+
+    def hoisted(self) -> str:
+        """the same document with every name written with the root's declarations only"""
+        if self.base_xml is None:
+            self.base_xml = L.serialize(ET.fromstring(self.xml), self.ast_tns, self.pfx)
+        return self.base_xml
 
 
 def leak_site(e: BaseException) -> str:
@@ -464,6 +539,8 @@ def in_scope(u: Unit, cname: str, opts: dict) -> tuple[bool, str]:
         return True, ''
     if not u.contiguous:
         return False, 'non-contiguous'
+    if not u.keys_stable:
+        return False, 'same-named siblings under different prefixes'
     if cname == 'default' and u.mixed_text and opts.get('cdata_prefix') is None:
         return False, 'cdata-dropped'
     return True, ''
@@ -533,19 +610,31 @@ def roundtrip(ctx: Ctx, u: Unit, cname: str, opts: dict, want_log=False) -> dict
         res['outcome'] = 'values-differ'
         report(ctx, 'typed values differ after decode+encode', case, {'xml2': xml2})
         return res
-    if '<' in u.xml[1:] and 'xmlns' in u.xml[u.xml.index('>'):]:
-        res['outcome'] = 'ok-second-decode-skipped(inner xmlns)'
-        return res
+    first = data
+    if u.inner_xmlns:
+        # the serialiser writes every declaration at the root, so the data of the second decode carries other
+        # prefixes and no inner declarations: "decodes to the same data again" is read as "to the data of the same
+        # document written with the root's declarations only"
+        try:
+            first = u.schema.decode(u.hoisted(), converter=cls, **opts)
+        except Exception as e:
+            res['outcome'] = 'hoisted-decode-raised'
+            report(ctx, 'decode of a valid document raised', dict(case, xml=u.hoisted()),
+                   {'error': classify_exc(e), 'msg': str(e)[:300]})
+            return res
+        ctx.count('rt-second-decode:against the document with root declarations only')
     try:
         data2 = u.schema.decode(xml2, converter=cls, **opts)
     except Exception as e:
         res['outcome'] = 'second-decode-raised'
         report(ctx, 'second decode raised', case, {'xml2': xml2, 'error': repr(e)[:300]})
         return res
-    if not L.values_equal(strip_xmlns(L.canon(data), cname), strip_xmlns(L.canon(data2), cname)):
+    tk = text_keys(cname, opts) if u.inner_xmlns else ()
+    c1, c2 = strip_xmlns(L.canon(first), cname, tk), strip_xmlns(L.canon(data2), cname, tk)
+    if not L.values_equal(c1, c2):
         res['outcome'] = 'second-decode-differs'
         report(ctx, 'decoding the re-encoded document gives different data', case,
-               {'xml2': xml2, 'diff': L.first_diff(strip_xmlns(L.canon(data), cname), strip_xmlns(L.canon(data2), cname))})
+               {'xml2': xml2, 'diff': L.first_diff(c1, c2)})
         return res
     res['outcome'] = 'ok'
     return res
@@ -560,22 +649,34 @@ def ns_of(u: Unit) -> dict:
     return u.nsmap
 
 
-def strip_xmlns(c, cname):
+def text_keys(cname: str, opts: dict) -> tuple:
+    if cname == 'default':
+        return (opts.get('text_key', '$'),)
+    return {'badgerfish': ('$',), 'gdata': ('$t',)}.get(cname, ())
+
+
+def strip_xmlns(c, cname, text_keys=()):
     """second-decode equality is about the data, not about where xmlns declarations are repeated: the
-    serialiser writes all declarations at the root (inner re-declarations of the same binding vanish)"""
+    serialiser writes all declarations at the root (inner re-declarations of the same binding vanish).
+    `text_keys` (documents with inner declarations only): a dictionary that holds nothing but the text is the
+    text (the default convention keeps a dictionary for a simple element only because it carries a
+    declaration for its own namespace, base.py:353-375)"""
     if isinstance(c, dict):
         if 'd' in c:
-            return {'d': [[k, strip_xmlns(v, cname)] for k, v in c['d']
-                          if not (k in ('xmlns', '@xmlns') or k.startswith(('xmlns:', '@xmlns:', 'xmlns$', '_xmlns')))]}
+            kvs = [[k, strip_xmlns(v, cname, text_keys)] for k, v in c['d']
+                   if not (k in ('xmlns', '@xmlns') or k.startswith(('xmlns:', '@xmlns:', 'xmlns$', '_xmlns')))]
+            if text_keys and len(kvs) == 1 and kvs[0][0] in text_keys:
+                return kvs[0][1]
+            return {'d': kvs}
         if 'l' in c:
-            xs = [strip_xmlns(x, cname) for x in c['l']]
+            xs = [strip_xmlns(x, cname, text_keys) for x in c['l']]
             if cname == 'jsonml':
                 xs = [x for x in xs if x != {'d': []}]
             return {'l': xs}
         if 'e' in c:
             e = dict(c['e'])
             e['xmlns'] = []
-            e['kids'] = [strip_xmlns(k, cname) for k in e['kids']]
+            e['kids'] = [strip_xmlns(k, cname, text_keys) for k in e['kids']]
             return {'e': e}
     return c
 
@@ -733,9 +834,9 @@ def get_at(data, path):
 def mutate(rng, data, cname) -> Optional[tuple[Any, dict]]:
     """one mutation of a copy of the decoded data: drop / duplicate / retype / reorder / wrap"""
     from xmlschema.dataobjects import DataElement
+    if isinstance(data, DataElement):
+        return mutate_de(rng, copy_de(data))
     d = copy.deepcopy(data)
-    if isinstance(d, DataElement):
-        return mutate_de(rng, d)
     ps = [p for p in paths(d, cname) if p]
     if not ps:
         kind = 'retype-root'
@@ -783,6 +884,17 @@ def mutate(rng, data, cname) -> Optional[tuple[Any, dict]]:
     except Exception:
         return None
     return d, desc
+
+
+def copy_de(d):
+    """deep copy of a DataElement tree that keeps the schema bindings shared (`copy.deepcopy` would copy the
+    whole schema through `xsd_element` for every mutation)"""
+    memo: dict = {}
+    for e in d.iter():
+        for x in (e.xsd_element, e.xsd_type, getattr(e, '_encoder', None)):
+            if x is not None:
+                memo[id(x)] = x
+    return copy.deepcopy(d, memo)
 
 
 def mutate_de(rng, d):
@@ -901,21 +1013,35 @@ def compare_model(ctx: Ctx, drv: Driver, u: Unit, cname: str, opts: dict, res: d
         for ent in enclog:
             if ent[0] in ('enc', 'encerr'):
                 facts_of(table, ent[2])
-    if not mapper.functional:
-        ctx.count('model:mapper-not-functional')
-        return
     base = {'conv': cname, 'useNs': use_ns, 'mapper': mapper.json(), 'sch': table.facts, 'opts': opts}
     case = res['case']
-    # 1. one-level decode
+    # 1. one-level decode, with the name mapping of the namespace context of each call
     for node in iter_nodes(root):
         hd = {k: node[k] for k in ('tag', 'attrs', 'xmlns') if k in node}
         if 'text' in node:
             hd['text'] = node['text']
-        reqs.append(dict(base, op='dec1', ty=node['ty'], hd=hd, items=node['_one']['items']))
+        if node['_one']['mapper'] is None:
+            # one extended name, two prefixed names at one level (same-named children under different prefixes,
+            # or a child named as its parent in another context): `Mapper.mp` is one function per level
+            ctx.count('model:skipped(one level maps one name in two ways)')
+            continue
+        reqs.append(dict(base, op='dec1', mapper=node['_one']['mapper'], ty=node['ty'], hd=hd,
+                         items=node['_one']['items']))
         meta.append(('dec1', case, node['_one']['result']))
-    # 2. tree round trip
-    reqs.append(dict(base, op='rt', root=strip_private(root)))
-    meta.append(('rt', case, (L.canon(res['data']), encode_log_to_tree(res.get('enclog', [])))))
+    # 2. tree round trip (one mapper for the whole document)
+    if mapper.functional:
+        reqs.append(dict(base, op='rt', root=strip_private(root)))
+        meta.append(('rt', case, (L.canon(res['data']), encode_log_to_tree(res.get('enclog', [])))))
+    else:
+        ctx.count('model:tree-skipped(the name mapping varies inside the document)')
+    # 2b. tree round trip through the scoped recursion: one name mapping per lexical scope
+    if cname in SCOPED and use_ns:
+        scopes = scope_tables(ctx, cname, root, res.get('enclog', []), case)
+        if scopes is not None:
+            reqs.append({'op': 'rtS', 'conv': cname, 'sch': table.facts, 'root': strip_private(root),
+                         'scopes': scopes})
+            meta.append(('rtS', case, (L.canon(res['data']), encode_log_to_tree(res.get('enclog', [])))))
+            ctx.count('model:scoped-tree/%s:%d scope(s)' % (cname, min(len(scopes), 4)) + ('+' if len(scopes) > 4 else ''))
     # 3. one-level encode (round trip and mutated data)
     for cse, enclog in [(case, res.get('enclog', []))] + sound_pend:
         mut = cse.get('mutation') or {}
@@ -923,6 +1049,9 @@ def compare_model(ctx: Ctx, drv: Driver, u: Unit, cname: str, opts: dict, res: d
             ctx.count('model:skipped(mutation touches xmlns declarations)')
             continue
         for ent in enclog:
+            if ent[0] in ('enc', 'encerr') and ent[5].get('conflict'):
+                ctx.count('model:skipped(one level un-maps one name in two ways)')
+                continue
             if ent[0] in ('enc', 'encerr') and cname == 'jsonml' and isinstance(ent[1], MutableSequence) and any(
                     isinstance(e, MutableSequence) and len(e) and not isinstance(e[0], str) and
                     not (use_ns and isinstance(e[0], MutableMapping)) for e in ent[1]):
@@ -950,13 +1079,14 @@ def compare_model(ctx: Ctx, drv: Driver, u: Unit, cname: str, opts: dict, res: d
         if kind == 'dec1':
             if ans['v'] != want:
                 ctx.mismatch(f'{cname}: element_decode', small, want, ans['v'])
-        elif kind == 'rt':
+        elif kind in ('rt', 'rtS'):
             wd, wt = want
+            how = 'tree' if kind == 'rt' else 'scoped tree'
             if ans['dec'] != wd:
-                ctx.mismatch(f'{cname}: decoded data (tree)', small, wd, ans['dec'])
+                ctx.mismatch(f'{cname}: decoded data ({how})', small, wd, ans['dec'])
             if wt is not None and ans['enc'] != {'ok': wt}:
-                ctx.mismatch(f'{cname}: ElementData tree of encode(decode(doc))', small, wt, ans['enc'])
-            if wt is None:
+                ctx.mismatch(f'{cname}: ElementData tree of encode(decode(doc)) ({how})', small, wt, ans['enc'])
+            if wt is None and kind == 'rt':
                 ctx.count('model:encode-tree-not-reconstructed')
         else:
             got = ans['enc']
@@ -967,6 +1097,77 @@ def compare_model(ctx: Ctx, drv: Driver, u: Unit, cname: str, opts: dict, res: d
             elif got != want:
                 ctx.mismatch(f'{cname}: element_encode', dict(small, obj=None), want, got)
             ctx.count(f'enc1/{cname}:' + ('ok' if 'ok' in want else want['error']))
+
+
+SCOPED = ('jsonml', 'dataelement')
+
+
+def scope_tables(ctx: Ctx, cname: str, root: dict, enclog: list, case: dict) -> Optional[list]:
+    """[[declarations in scope (innermost first), mapper tables]…] for the scoped model: every name mapping that
+    a real `element_decode` / `element_encode` call of this round trip performed, filed under the *lexical* scope
+    of the call — the declarations reported for the element and its ancestors (decode: the captured ElementData;
+    encode: what `set_xmlns_context` returned for the data of the enclosing calls).  The mapper of the model is a
+    function of that scope; two different answers of the real converter for one scope (declarations of an
+    earlier sibling still in force, a context restored from the wrong frame, …) break the tie."""
+    tabs: dict = {}
+    bad: list = []
+    ambiguous: list = []
+
+    def put(scope, kind, ext, mapped, where):
+        t = tabs.setdefault(json.dumps(scope), {'scope': scope, 'tags': {}, 'attrs': {}, 'rtags': {}, 'rattrs': {}})
+        fwd, back = t[kind], t['r' + kind]
+        if fwd.setdefault(ext, mapped) != mapped:
+            bad.append({'scope': scope, 'name': ext, 'answers': [fwd[ext], mapped], 'at': where})
+        if back.setdefault(mapped, ext) != ext:
+            if kind == 'attrs':
+                # `unmap_qname(name, xsd_element.attributes)` also depends on the attributes declared for the
+                # element: under a default namespace a qualified attribute and an unqualified one are both
+                # written without prefix (C17 owns that); `Mapper.umA` is one function per scope
+                ambiguous.append(mapped)
+            else:
+                bad.append({'scope': scope, 'written': mapped, 'answers': [back[mapped], ext], 'at': where})
+
+    def walk(node, outer):
+        scope = [list(p) for p in node.get('xmlns', [])] + outer
+        m = node['_tabs']
+        put(scope, 'tags', node['tag'], m['tag'], 'element_decode ' + node['tag'])
+        for k, mk in m['attrs']:
+            put(scope, 'attrs', k, mk, 'element_decode ' + node['tag'] + ' @' + k)
+        for it in node['items']:
+            if 'n' in it:
+                walk(it['n'][2], scope)
+    walk(root, [])
+    stack: list = []            # scopes of the enclosing element_encode calls
+    for ent in enclog:
+        if ent[0] != 'enc':
+            continue
+        _, obj, xe, level, ed, t = ent
+        if 'own' not in t or level > len(stack):
+            return None
+        del stack[level:]
+        scope = [list(p) for p in (ed.xmlns or [])] + (stack[-1] if stack else [])
+        stack.append(scope)
+        where = 'element_encode ' + str(ed.tag)
+        for ext, s in t['tags']:
+            if s in t['own']:
+                put(scope, 'tags', ext, s, where)
+        for ext, s in t['attrs']:
+            if s in t.get('akeys', ()) and not (s == 'xmlns' or s.startswith('xmlns:')):
+                put(scope, 'attrs', ext, s, where + ' @' + s)
+        for ext, s, x in t['kids']:
+            put(x + scope, 'tags', ext, s, where + ' child ' + s)
+    if bad:
+        ctx.traces += 1
+        ctx.mismatch(f'{cname}: the name mapping of the converter is not a function of the namespace declarations '
+                     'in scope', {k: case[k] for k in case if k != 'xsd'}, bad[:4],
+                     'one mapping per lexical scope (decTreeS/encTreeS)')
+        return None
+    if ambiguous:
+        ctx.count('model:scoped-tree-skipped(one written attribute name denotes two attributes in one scope)')
+        return None
+    ctx.traces += 1
+    return [[t['scope'], {'tags': [[k, v] for k, v in t['tags'].items()],
+                          'attrs': [[k, v] for k, v in t['attrs'].items()]}] for t in tabs.values()]
 
 
 # ------------------------------------------------------------------------------------ content re-ordering helpers
@@ -1333,7 +1534,7 @@ def direct_cases(ctx: Ctx, drv: Optional[Driver], n: int) -> None:
 
 # ------------------------------------------------------------------------------------ run
 
-def build_units(ctx: Ctx, n_schemas: int, n_inst: int):
+def build_units(ctx: Ctx, n_schemas: int, n_inst: int, nested_rate: float = 0.8):
     import xmlschema
     rng = ctx.rng
     sid = 0
@@ -1358,6 +1559,20 @@ def build_units(ctx: Ctx, n_schemas: int, n_inst: int):
                 ctx.count('gen:instance-invalid')
                 continue
             yield Unit(sid, xsd, schema, xml, root, ast)
+            if len(root) and rng.random() < nested_rate:
+                # the same instance with namespace (re)declarations nested at random depths
+                xml_n, st = L.serialize_nested(rng, root, ast['tns'], Unit(sid, xsd, schema, xml, root, ast).pfx)
+                if not st['decl-elements']:
+                    ctx.count('gen:nested-no-declaration')
+                    continue
+                try:
+                    ok = schema.is_valid(xml_n)
+                except Exception:
+                    ok = False
+                if not ok:
+                    ctx.count('gen:nested-instance-invalid')
+                    continue
+                yield Unit(sid, xsd, schema, xml_n, root, ast, base_xml=xml, nsstats=st)
 
 
 def branches(u: Unit) -> list[str]:
@@ -1373,7 +1588,26 @@ def branches(u: Unit) -> list[str]:
         b.append('noncontig')
     if any(len(e) > len({c.tag for c in e}) for e in r.iter()):
         b.append('repeated')
+    if u.inner_xmlns:
+        b.append('inner-xmlns')
     return b
+
+
+def count_nsdecl(ctx: Ctx, u: Unit) -> None:
+    """distribution of the nested-namespace-declaration dimension (one count per document)"""
+    st = u.nsstats
+    if not st:
+        return
+    ctx.count('doc:nsdecl')
+    ctx.count('nsdecl:declaring elements nested %s deep' % ('1' if st['max-decl-depth'] <= 1 else '>=2'))
+    for a in st['actions']:
+        ctx.count('nsdecl:action:' + a)
+    if st['rebind']:
+        ctx.count('nsdecl:re-binds an in-scope prefix / the default namespace')
+    if st['multi-pop']:
+        ctx.count('nsdecl:a later element leaves >=2 declaring elements at once')
+    if st['multi-pop-rebind-then-later']:
+        ctx.count('nsdecl:a later element leaves >=2 declaring elements at once, the outermost re-binding')
 
 
 def explore(ctx: Ctx, drv: Optional[Driver], n_schemas: int, n_inst: int, n_mut: int) -> None:
@@ -1382,6 +1616,7 @@ def explore(ctx: Ctx, drv: Optional[Driver], n_schemas: int, n_inst: int, n_mut:
         ctx.count('doc:elements<=%d' % min(64, 1 << max(0, (sum(1 for _ in u.root.iter()) - 1)).bit_length()))
         for b in br:
             ctx.count('doc:' + b)
+        count_nsdecl(ctx, u)
         for cname in conv_classes():
             for opts in option_sets(cname, ctx.rng, u.mixed_text):
                 res = roundtrip(ctx, u, cname, opts)
